@@ -142,6 +142,16 @@ CATALOGUE = [
     ('C17', 'min-timer-never-releases', 'bacpypes/local/object.py', "        # clear the value at priority 6\n        self.binary_obj.WriteProperty(\"presentValue\", (), priority=6)", "        # clear the value at priority 6\n        pass"),
     ('C17', 'unchanged-value-skips-slot-update', 'bacpypes/local/object.py', "            # update the priority array entry\n            if property == priorityArray:\n                if arrayIndex is None:",
      "            # update the priority array entry\n            if property == priorityArray and arrayIndex is not None and value != () and value == getattr(self, presentValue):\n                return\n            if property == priorityArray:\n                if arrayIndex is None:"),
+    # ---- C19
+    ('C19', 'displaced-router-keeps-dnet', 'bacpypes/netservice.py', "                    if dnet in router_info.dnets:\n                        del router_info.dnets[dnet]\n                        del self.path_info[(snet, dnet)]\n                        if _debug: RouterInfoCache._debug(\"    - del path: %r -> %r via %r\", snet, dnet, router_info.address)\n                if not router_info.dnets:\n                    del self.routers[snet][router_info.address]\n                    if _debug: RouterInfoCache._debug(\"    - no dnets: %r via %r\", snet, router_info.address)\n\n        # update current router info if there is one",
+     "                    if dnet in router_info.dnets:\n                        del self.path_info[(snet, dnet)]\n                if not router_info.dnets:\n                    del self.routers[snet][router_info.address]\n\n        # update current router info if there is one"),
+    ('C19', 'keeps-older-announcement', 'bacpypes/netservice.py', "        for dnet in dnets:\n            other_router = self.path_info.get((snet, dnet), None)\n            if other_router and (other_router is not existing_router_info):\n                other_routers.add(other_router)\n\n        # remove the dnets from other router(s) and paths\n        if other_routers:",
+     "        for dnet in list(dnets):\n            other_router = self.path_info.get((snet, dnet), None)\n            if other_router and (other_router is not existing_router_info):\n                dnets.remove(dnet)\n\n        # remove the dnets from other router(s) and paths\n        if other_routers:"),
+    ('C19', 'renumber-leaves-path-info', 'bacpypes/netservice.py', "                self.path_info[(new_snet, dnet)] = self.path_info.pop((old_snet, dnet))", "                pass"),
+    ('C19', 'delete-leaves-path-info', 'bacpypes/netservice.py', "                    if dnet in router_info.dnets:\n                        del router_info.dnets[dnet]\n                        del self.path_info[(snet, dnet)]\n                        if _debug: RouterInfoCache._debug(\"    - del path: %r -> %r via %r\", snet, dnet, router_info.address)\n                if not router_info.dnets:\n                    del self.routers[snet][address]",
+     "                    if dnet in router_info.dnets:\n                        del router_info.dnets[dnet]\n                if not router_info.dnets:\n                    del self.routers[snet][address]"),
+    ('C19', 'sadr-learning-disabled', 'bacpypes/netservice.py', "            # pass this new path along to the cache\n            self.router_info_cache.update_router_info(adapter.adapterNet, npdu.pduSource, [snet])", "            # pass this new path along to the cache\n            pass"),
+    ('C19', 'pending-check-first-again', 'bacpypes/netservice.py', "        if (not router_info) and (dnet in self.pending_nets):", "        if (dnet in self.pending_nets):"),
     # ---- C12
     ('C12', 'window-max-instead-of-min', 'bacpypes/appservice.py', "        self.actualWindowSize = min(apdu.apduWin, self.ssmSAP.proposedWindowSize)\n        if _debug: ServerSSM._debug(",
      "        self.actualWindowSize = max(apdu.apduWin, self.ssmSAP.proposedWindowSize)\n        if _debug: ServerSSM._debug("),
